@@ -711,6 +711,19 @@ fn authenticate_message(
     }
 }
 
+#[cfg(feature = "verif-hooks")]
+impl LongTermCredentialClient {
+    pub(crate) fn verif_state(&self) -> (String, Vec<TransactionId>) {
+        (
+            format!(
+                "long-term user={:?} state={:?} params={:?}",
+                self.user_name, self.state, self.params
+            ),
+            self.validator.verif_marked(),
+        )
+    }
+}
+
 #[cfg(test)]
 mod long_term_cred_mech_tests {
     use enumflags2::{make_bitflags, BitFlags};
